@@ -6,7 +6,7 @@ From RsM Require Import Model.Tlv Model.TlvSpec
   Proofs.TlvWithin Proofs.TlvScalar Proofs.TlvReencode Proofs.TlvIter Proofs.TlvDecodeInv
   Proofs.TlvMonitor Props.C16.
 From RsM Require Import Model.TlvDerive Model.TlvBuf Proofs.TlvDeriveFacts Proofs.TlvDeriveTotal
-  Proofs.TlvDeriveRoundtrip Proofs.TlvDeriveLenient Proofs.TlvBufFacts Proofs.TlvBufDerive.
+  Proofs.TlvDeriveRoundtrip Proofs.TlvDeriveLenient Proofs.TlvBufFacts Proofs.TlvBufDerive Proofs.TlvReencodeIter.
 Import ListNotations.
 Open Scope N_scope.
 
@@ -55,3 +55,6 @@ Check (C16_derive_atomic : forall (d : dty) (t : tag) (v : dval) (w : wbuf),
   atomic_ty d = true -> wb_ok w -> fst (denc_wb d t v w) <> ROk tt ->
   wb_end (snd (denc_wb d t v w)) = wb_end w /\
   wb_as_slice (snd (denc_wb d t v w)) = wb_as_slice w).
+Check (C16_tlv_iter_reencode : forall (x : tree) (rest : bytes),
+  wf_tree x -> blen (encode x ++ rest) < two63 ->
+  el_reencode_iter (root_tag x) (encode x ++ rest) = ROk (encode x)).
